@@ -11,6 +11,7 @@ ExhCons == {"if","do","dol","selcase","block"}
 NestCons == {"if","do","dol","selcase","block","where"}
 NestCons2 == {"forall","assoc","crit","seltype","doconc"}
 SubMod == {"sub","mod","fun"}
+SubFun == {"sub","fun"}
 ExhSpec == {"type"}
 Set12 == {1, 2}
 Set1 == {1}
